@@ -247,6 +247,10 @@ class ProbabilisticNode(Node):
         if len(alive) == len(self.next_states):
             return
         surviving_probability = sum(_next_state[PROBABILITY] for _next_state in alive)
+        if surviving_probability == 0:
+            # only successors listed with probability 0 are left: nothing is reachable from here
+            self.next_states = []
+            return
         self.next_states = [
             (_next_state[PROBABILITY] / surviving_probability, _next_state[NEXT_STATE_IDX])
             for _next_state in alive]
